@@ -28,6 +28,7 @@
 
 #include <limits>
 #include <deque>
+#include <cmath>
 
 namespace Givaro {
 
@@ -53,7 +54,7 @@ namespace Givaro {
 		UTT _degree;// exponent-1
 		UTT _pceil;	// smallest such that characteristic<2^_pceil,
 		// used for fast for table indexing
-		UTT _MODOUT;// Largest accepted double for init
+		UTT _MODOUT;// Largest index of the _low2log/_high2log tables
 
 		// Conversion tables from exponent to double z-adic representation
 		std::vector<double> _log2dbl;	// Exponent to double
@@ -185,9 +186,9 @@ namespace Givaro {
 		virtual Rep& init(Rep& pad, const double d) const
 		{
 			GIVARO_ASSERT(d>=0.0 , "[GFqExtFast]: init from a negative number");
-			GIVARO_ASSERT(d<_MODOUT, "[GFqExtFast]: init from a too large number");
+			GIVARO_ASSERT(d<std::ldexp(1.0, (int)(_BITS*((_degree<<1)+1))), "[GFqExtFast]: init from a too large number");
 			// WARNING WARNING WARNING WARNING
-			// Precondition : 0 <= d < _MODOUT
+			// Precondition : 0 <= d < 2^(_BITS*(2*exponent-1))
 			// Can segfault if d is too large
 			// WARNING WARNING WARNING WARNING
 			uint64_t rll( static_cast<uint64_t>(d) );
@@ -348,13 +349,14 @@ namespace Givaro {
 		GFqExt(): DirectFather_t(),
 		_fMODOUT(static_cast<double>(this->_MODOUT)) {}
 
+		// q-adic doubles are sums of v_i 2^(_BITS*i), i < 2*exponent-1, v_i < 2^_BITS
 		GFqExt( const UTT P, const UTT e) :
 			DirectFather_t(P,e),
-			_fMODOUT(static_cast<double>(this->_MODOUT)) {}
+			_fMODOUT(std::ldexp(1.0, (int)(this->_BITS*((this->_degree<<1)+1)))) {}
 
 		GFqExt( const GFqDom<TT>& F) :
 			DirectFather_t(F),
-			_fMODOUT(static_cast<double>(this->_MODOUT)) {}
+			_fMODOUT(std::ldexp(1.0, (int)(this->_BITS*((this->_degree<<1)+1)))) {}
 
 		~GFqExt() {}
 
